@@ -137,8 +137,14 @@ theorem tailcall_shape {P : Prog} {A : Array Anns} {s0 : Nat} (hA : AllChecked P
     | cons arg s =>
       simp only [handleTailCall, hst, hfr, ok, if_true, Except.ok.injEq, Prod.mk.injEq] at hstep
       obtain ⟨rfl, _⟩ := hstep
-      refine ⟨_, fn, rfl, rfl, rfl, hat.hfn, hat.hcc, (fun _ => rfl), (by simp [hfr]), ?_, ?_⟩
-      · simp [List.length_take, hat.hcc]; omega
+      have hself : fn.selfTail = true := by
+        obtain ⟨hlt, hget⟩ := Array.getElem?_eq_some_iff.mp hat.hinstr
+        simp only [Function.selfTail, List.contains_iff_mem]
+        rw [← hget]
+        exact Array.getElem_mem_toList hlt
+      have hcc := hat.hcc hself
+      refine ⟨_, fn, rfl, rfl, rfl, hat.hfn, hcc, (fun _ => rfl), (by simp [hfr]), ?_, ?_⟩
+      · simp [List.length_take, hcc]; omega
       · simp [hst] at hs ⊢; omega
   | false =>
     have hh := transfer_tailCall_false htr
